@@ -91,6 +91,52 @@ macro_rules! block_clone_case {
     };
 }
 
+/// Clone of an object that has never been used (not even a zero-length call): both must behave as
+/// fresh instances.
+macro_rules! fresh_clone_case {
+    ($name:ident, $unw:expr, $ty:ident :: $t2:ident, $dir:ident, $bs:ty, $b:expr, $ivbs:ty, $ivlen:expr, $par:ty, $mbs:ty, $mb:expr) => {
+        #[kani::proof]
+        #[kani::unwind($unw)]
+        pub fn $name() {
+            const MB: usize = $mb;
+            let key: [u8; 2] = kani::any();
+            let iv: [u8; $ivlen] = kani::any();
+            let h2: [u8; 2 * MB] = kani::any();
+            let h3: [u8; MB] = kani::any();
+            let c = Uf::<$bs, $par>::with_key(key);
+            let mk = || $ty::$t2::inner_iv_init(c.clone(), blk::<$ivbs>(&iv));
+            let (mut a2, mut b3) = (h2, h3);
+            let mut r = mk();
+            do_blocks!($dir, r, blocks_mut::<$mbs>(&mut a2));
+            let mut r2 = mk();
+            do_blocks!($dir, r2, blocks_mut::<$mbs>(&mut b3));
+            let (t1, t2) = (r.iv_state(), r2.iv_state());
+            let (mut x2, mut x3) = (h2, h3);
+            let mut o = mk();
+            let mut k = o.clone();
+            do_blocks!($dir, k, blocks_mut::<$mbs>(&mut x3));
+            do_blocks!($dir, o, blocks_mut::<$mbs>(&mut x2));
+            let mut j = 0;
+            while j < 2 * MB {
+                assert!(x2[j] == a2[j], "original (cloned while unused) differs from a fresh instance");
+                j += 1;
+            }
+            let mut j = 0;
+            while j < MB {
+                assert!(x3[j] == b3[j], "clone of an unused object differs from a fresh instance");
+                j += 1;
+            }
+            let (s1, s2) = (o.iv_state(), k.iv_state());
+            let mut j = 0;
+            while j < $ivlen {
+                assert!(s1[j] == t1[j] && s2[j] == t2[j], "state after cloning an unused object differs from a fresh replay");
+                j += 1;
+            }
+            kani::cover!(true);
+        }
+    };
+}
+
 /// Byte-level objects (stream wrappers, buffered CFB, CTR core): h1 = A bytes, h2 = N2 bytes, h3 = N3 bytes.
 macro_rules! bytes_clone_case {
     ($name:ident, $unw:expr, $mk:expr, $call:ident, $how:expr, $b:expr, $a:expr, $n2:expr, $n3:expr) => {
@@ -317,6 +363,12 @@ block_clone_case!(ige_dec_clone_from, 48, ige::Decryptor, dec, CLONE_FROM, U2, 2
 other_first_stream!(other_first_belt, 80, mk_belt_plain, ks_belt, 16, 17);
 other_first_stream!(other_first_ctr64le, 64, mk_ctr64le_b8, ks_ctr64le, 8, 9);
 other_first_stream!(other_first_ofb, 48, mk_ofb_b2, ks_ofb, 2, 5);
+fresh_clone_case!(cbc_enc_fresh_clone, 48, cbc::Encryptor, enc, U2, 2, U2, 2, U2, U2, 2);
+fresh_clone_case!(cfb_enc_fresh_clone, 48, cfb_mode::Encryptor, enc, U2, 2, U2, 2, U2, U2, 2);
+fresh_clone_case!(cfb_dec_fresh_clone, 48, cfb_mode::Decryptor, dec, U2, 2, U2, 2, U2, U2, 2);
+fresh_clone_case!(ige_dec_fresh_clone, 48, ige::Decryptor, dec, U2, 2, U4, 4, U2, U2, 2);
+fresh_clone_case!(cfb8_enc_fresh_clone, 48, cfb8::Encryptor, enc, U2, 2, U2, 2, U1, U1, 1);
+fresh_clone_case!(ofb_core_fresh_clone, 48, ofb::OfbCore, enc, U2, 2, U2, 2, U2, U2, 2);
 ctr_core_clone!(ctr32be_core_clone, 48, Ctr32BE, u32, U4, 4, U2);
 ctr_core_clone!(ctr64le_core_clone, 64, Ctr64LE, u64, U8, 8, U2);
 ctr_core_clone!(ctr128be_core_clone, 80, Ctr128BE, u128, U16, 16, U1);
